@@ -117,6 +117,27 @@ Fixpoint wins (x : N * Z) (l : list (N * Z)) : list (N * Z) :=
   end.
 Definition wsort (l : list (N * Z)) : list (N * Z) := fold_right wins [] l.
 
+(* ---------------------------------------------------------------- tokenizer *)
+(* tokenize_for_sketch after its two oracles (NFKC, to_lowercase) have produced the list of
+   code points: `.split(|c| !c.is_alphanumeric()).filter(|s| s.len() >= 2)`, where
+   `s.len()` is the UTF-8 BYTE length -- a single two-byte letter is a token, a single
+   ASCII letter is not.  is_alphanumeric is an oracle. *)
+Definition utf8_len (c : N) : N :=
+  if c <? 128 then 1 else if c <? 2048 then 2 else if c <? 65536 then 3 else 4.
+Definition str_len (s : list N) : N := fold_right (fun c a => utf8_len c + a) 0 s.
+
+Section Tokenizer.
+  Variable is_alnum : N -> bool.
+  (* the pieces between separators, empty pieces included; cur = current piece, reversed *)
+  Fixpoint split_alnum (cs cur : list N) : list (list N) :=
+    match cs with
+    | [] => [rev cur]
+    | c :: r => if is_alnum c then split_alnum r (c :: cur) else rev cur :: split_alnum r []
+    end.
+  Definition tokenize_norm (cs : list N) : list (list N) :=
+    filter (fun s => 2 <=? str_len s) (split_alnum cs []).
+End Tokenizer.
+
 (* ---------------------------------------------------------------- sketch entry *)
 Record entry := mkEntry {
   e_frame_id : N; e_simhash : N; e_filter : bytes; e_top : list N;
